@@ -743,7 +743,7 @@ def run_check(prop, tier, jobs, meta, jobfilter=None, keep=False, workers=None):
             exitcode = 1
         elif inconcl:
             exitcode = 2
-        write_evidence(prop, tier, seed, results, meta, time.time() - t0, len(violations), ctx)
+        write_evidence(prop, tier, seed, results, meta, time.time() - t0, len(violations), ctx, partial=bool(jobfilter))
         print("%s tier=%s jobs=%d pass=%d known=%d violations=%d inconclusive=%d wall=%.0fs" % (
             prop, tier, len(results), sum(1 for r in results if r["verdict"] == "pass"), len(known_lines),
             len(violations), len(inconcl), time.time() - t0))
@@ -752,8 +752,10 @@ def run_check(prop, tier, jobs, meta, jobfilter=None, keep=False, workers=None):
     return exitcode
 
 
-def write_evidence(prop, tier, seed, results, meta, wall, nviol, ctx):
-    os.makedirs(os.path.join(OUT, "evidence"), exist_ok=True)
+def write_evidence(prop, tier, seed, results, meta, wall, nviol, ctx, partial=False):
+    # a run restricted with --jobs is a development aid: its (partial) evidence never replaces the full check's file
+    evdir = os.path.join(OUT, "evidence-partial" if partial else "evidence")
+    os.makedirs(evdir, exist_ok=True)
     decided = [r for r in results if r["verdict"] in ("pass", "known-finding", "fail")]
     queries = sum(1 + (1 if "twin" in r else 0) + (1 if r["verdict"] in ("fail", "known-finding") else 0) for r in decided)
     hasserts = set()
@@ -801,4 +803,4 @@ def write_evidence(prop, tier, seed, results, meta, wall, nviol, ctx):
     }
     if ev["coverage"]["evaluations"] < 1:
         ev["coverage"]["evaluations"] = 0
-    json.dump(ev, open(os.path.join(OUT, "evidence", prop + ".json"), "w"), indent=1)
+    json.dump(ev, open(os.path.join(evdir, prop + ".json"), "w"), indent=1)
